@@ -181,4 +181,134 @@ CHECKS = {
             {"name": "TestC19Txn", "quick": 6000, "thorough": 400000},
         ],
     },
+    "C05": {
+        "rule": "cache level (no server): a generated table (2-4 scalar columns of every atomic type, two optionals, a map, a set) with a "
+                "generated index configuration (schema-only / client-only / mixed; single and two-column schema indexes, client indexes on "
+                "plain, optional and map-key columns, overlaps) receives 1-8 batches. A batch is the difference to a drawn next content "
+                "(valid: no duplicate schema-index tuple) biased to hand-overs (B takes A's values, A deleted or changed), swaps and "
+                "delete+recreate; its rows are applied one by one in a rapid-drawn permutation through one of three code paths (direct "
+                "Create/Update/Delete, single-row update2, single-row update notifications) - the generator owns the order Go's map "
+                "iteration would pick - and the genuine multi-row update2 batch is applied to a twin cache. After every batch: Rows() = "
+                "content; every Index(cols...) is a partition of exactly the cached uuids (no stale, missing, duplicated or mixed entry); "
+                "RowByModel/RowsByModels by uuid, by schema-index values and by client-index values return exactly what a scan returns; "
+                "values no row holds any more lead nowhere. Non-trivial = history with a batch in which an indexed value changes owner; "
+                "distinct = hash of (index configuration, per-batch path/size/hand-over).",
+        "assumptions": COMMON_ASSUMPTIONS + [
+            "single-column indexes on set/map columns are not generated (the cache uses the value as a Go map key)",
+            "Index() addresses indexes by column names only: map-key client indexes are checked through the lookup half",
+            "the client-level lookups (Get, Where(model).List on a connected client) are exercised by the L2 checks C01/C08",
+        ],
+        "level_text": "exploration: generated index configurations x batch histories x application orders, all indexes and lookups compared with a scan after every batch",
+        "level_note": "scan oracle over canonical values; the order inside genuine multi-row notifications is not controllable (twin cache only adds evidence)",
+        "technique": "property-based testing (rapid): generated histories with generator-owned application order, partition/scan invariants",
+        "tests": [{"name": "TestC05", "quick": 8000, "thorough": 500000}],
+    },
+    "C08": {
+        "rule": "a table content (0-12 rows with colliding values: near copies of earlier rows) and a list of 0-4 well-typed conditions (all eight "
+                "functions, scalar/enum/optional/set/map columns, _uuid, empty sets/maps, repeated columns, map includes on index keys) are "
+                "evaluated under 3-5 index configurations over the same columns (none; schema single/multi; client single/multi incl. "
+                "optional and map-key; mixtures). For every configuration RowCache.RowsByCondition, Database.List(conds...) and a select "
+                "operation must return exactly the uuids an independent evaluator of RFC 7047 5.1 returns (refdb.EvalCond), hence the "
+                "same answer under every configuration. TestC08API (L2) checks WhereAll/WhereAny/WhereCache/Where(model).List against "
+                "predictions and that the generated Delete/Update affect exactly the listed rows. Non-trivial = >=2 conditions, >=1 index "
+                "configured, answer non-empty and a strict subset of the table; distinct = hash of (functions x column kinds, configurations).",
+        "assumptions": COMMON_ASSUMPTIONS + [
+            "includes/excludes on optional columns are documented as unsupported: an error is accepted there, a wrong answer is not",
+            "the column s0 is unique by construction so that every schema index containing it is satisfiable",
+        ],
+        "level_text": "exploration: generated contents x condition lists x index configurations with an independent condition evaluator and the metamorphic 'indexes do not matter' relation",
+        "level_note": "trusts refdb.EvalCond (30 lines, written from RFC 7047 5.1)",
+        "technique": "property-based testing (rapid): differential against an independent evaluator + metamorphic relation across index configurations",
+        "tests": [{"name": "TestC08", "quick": 3000, "thorough": 160000}],
+    },
+    "C09": {
+        "rule": "a generated schema over the whole type space (every atomic type as key and value, 0..1 / 1..1 / 0..n / 1..n / bounded, enums of every "
+                "type, references, real and boolean map keys) and a value for every column (empty/singleton/multi collections, unset/set optionals, "
+                "zero values, wide integers and reals, hostile strings) are sent model -> Mapper.NewRow -> json.Marshal -> Row.UnmarshalJSON -> "
+                "Mapper.GetRowData into a model pre-filled with sentinels, and -> model.CreateModel: every mapped field must come back equal "
+                "(sets as sets); with the default NewRow and after dropping drawn columns the absent columns keep their sentinels; NativeToOvs/"
+                "SetField with any other Go type and OvsToNative with a wire value of another kind (per column kind: ~10 wrong shapes) must "
+                "return an error. Non-trivial = >=1 collection/optional column with a non-default value; distinct = hash of the table's type signature.",
+        "assumptions": COMMON_ASSUMPTIONS + [
+            "integers are kept within +-2^53 (known finding int53); reals are finite; strings valid UTF-8",
+            "a JSON number for an integer column is the designed decoding path (float64 -> int), not a type mismatch",
+        ],
+        "level_text": "exploration: generated schemas x values round-tripped through the real mapper and JSON codec, plus a wrong-type matrix",
+        "level_note": "values are compared in the harness' canonical form obtained by reflection (not through the mapper)",
+        "technique": "property-based testing (rapid): round-trip oracle + negative typing matrix",
+        "tests": [{"name": "TestC09", "quick": 30000, "thorough": 2000000}],
+    },
+    "C10": {
+        "rule": "TestC10Exhaustive enumerates completely, per element type (integer, real, boolean, string, uuid): all pairs of ordered lists over a "
+                "3-element universe for a set column (16 x 16), optionals {unset,x,y}^2, atoms^2, maps over 2 keys x 2 values (9 x 9) - ~1900 "
+                "(type, a, b) triples; TestC10 draws larger tables/values, element orders and overlaps. For each pair: ModelUpdates.AddOperation("
+                "update to b, current = a) records no update iff a = b; the Modify row names exactly the changed columns and, applied to a by the "
+                "harness' own update2 rules, gives b; ModelUpdates.AddRowUpdate2(Modify sent through JSON) on a copy of a gives b; neither step "
+                "changes the model handed in (reflect.DeepEqual with a reflective deep copy taken before); an arbitrary generated difference "
+                "applied by the library equals the harness' applier (toggle / add-replace-remove / overwrite). Non-trivial = a != b with "
+                "overlapping elements or b = default, or a peer difference that changes a; distinct = hash of (types, a, b shapes).",
+        "assumptions": COMMON_ASSUMPTIONS + ["immutable columns are not generated here (a difference on them is rejected by design)"],
+        "level_text": "exhaustive over the stated small universe (exhaustive sub-space) + exploration of larger values",
+        "level_note": "the update2 rules are implemented twice in the harness (Update2Diff, ApplyUpdate2) from ovsdb-server(7)",
+        "technique": "property-based testing (rapid) + exhaustive enumeration of a small universe: inverse law apply(a, diff(a,b)) = b",
+        "tests": [
+            {"name": "TestC10Exhaustive", "kind": "plain", "quick": 1, "thorough": 1, "shards": {"quick": 1, "thorough": 1}},
+            {"name": "TestC10", "quick": 30000, "thorough": 2000000},
+        ],
+    },
+    "C11": {
+        "rule": "one row of a generated table receives a sequence of 2-6 operations (insert if absent; update, mutate with every supported mutator, "
+                "restore some or all columns to their original value, delete) accumulated exactly as Transaction.Transact does: one ModelUpdates "
+                "per operation through AddOperation, Merge into the aggregate, the next operation sees the model the previous one produced. After "
+                "every step from the second on: aggregated ForEachModelUpdate has old = first old and new = last new; ForEachRowUpdate is one "
+                "insert of the final row / one delete carrying the original row / one modify whose difference applied to the first old value "
+                "gives the last new value and names no column that is back to its original value; nothing at all (table absent from "
+                "GetUpdatedTables) if the row ends as it began or is inserted and deleted; GetModel/GetRow return the last state. Expected "
+                "states come from the reference rules (refdb.ApplyMutation). Non-trivial = sequence of length >=3 or one that restores a "
+                "column; distinct = hash of (type signature, operation/mutator sequence).",
+        "assumptions": COMMON_ASSUMPTIONS + ["only mutations the implementation supports are generated (see C03 tolerance classes)"],
+        "level_text": "exploration: generated operation sequences on one row with net-update laws checked after every step",
+        "level_note": "the merge of reference-driven changes into a transaction is additionally exercised by every L1 history (checkUpdate in C03/C04/C06)",
+        "technique": "property-based testing (rapid): stateful sequences, algebraic net-update laws against first-old/last-new",
+        "tests": [{"name": "TestC11", "quick": 30000, "thorough": 2000000}],
+    },
+    "C13": {
+        "rule": "model family in {hand-written struct cloned through JSON (15 mapped fields of every kind), generated struct with its own deep copy "
+                "(serverdb.Database), run-time struct for a generated schema}; drawn field values; Clone/CloneInto must return an Equal model "
+                "sharing no slice, map or pointer (reflect.Value.Pointer), must not modify the argument, Equal must be reflexive, symmetric and "
+                "false after any single-field mutation of the clone; the model is then stored in a cache (Create / Update / update2 notification), "
+                "the caller's copy is mutated (overwrite scalar, append/overwrite/truncate slice, insert/overwrite/delete map entry, write "
+                "through/nil a pointer) and a model read through one of 6-7 read paths (Row, Rows, RowByModel by uuid and by index, RowsByModels, "
+                "RowsByCondition with and without conditions) is mutated too: every path must still return the stored value. Event-handler "
+                "arguments are covered by C14, client Get/List by the L2 checks. Non-trivial = a mutation through a non-empty slice, map or "
+                "pointer; distinct = hash of (family, read path, write path, mutation kind).",
+        "assumptions": COMMON_ASSUMPTIONS + [
+            "RowsShallow is the documented read-only exception",
+            "map columns keyed by real/boolean are not generated for JSON-cloned models (known finding clone-nonjson-map-key)",
+        ],
+        "level_text": "exploration: generated models x read paths x caller mutations, snapshot-equality oracle and Clone/Equal algebraic laws",
+        "level_note": "memory sharing is detected through reflect pointers and by observing mutations; generated deep-copy code for slices/maps is checked in C20",
+        "technique": "property-based testing (rapid): aliasing probes (mutate-and-reread) + algebraic laws",
+        "tests": [{"name": "TestC13", "quick": 12000, "thorough": 800000}],
+    },
+    "C14": {
+        "rule": "cache level, built with -race: 1-3 handlers are registered, the dispatcher runs, and a history of 1-14 notifications computed by "
+                "the reference model (inserts, modifies, deletes incl. GC and weak pruning; update2 and update encodings) is applied while "
+                "the first handler blocks on a harness channel: a drawn word over {apply next notification, release next event} decides how "
+                "far the dispatcher lags. Oracles per handler: number of events = number of applied row changes (a missing one is detected "
+                "with the dispatcher released and nothing else outstanding; 20 s bound), replaying the events from empty reproduces Rows() of "
+                "every table and the reference state, per row add -> update* -> delete, update.old = replayed previous state, update old != new, "
+                "all handlers saw identical sequences; the last handler may scribble over the models it receives without effect on the cache. "
+                "Non-trivial = a row with >=3 changes and the dispatcher lagging >=2 events at some point; distinct = hash of (schema kinds, "
+                "schedule word, handlers).",
+        "assumptions": COMMON_ASSUMPTIONS + [
+            "fewer events outstanding than the 65536-entry buffer (the documented overflow exemption is not exercised)",
+            "handlers of one cache share the event's model objects; only isolation from the cache is required (C13)",
+        ],
+        "level_text": "exploration: generated notification histories x dispatcher schedules owned by the harness, under the race detector",
+        "level_note": "the interleaving of the two goroutines is controlled only through the handler gate; finer schedules are the Go scheduler's",
+        "technique": "property-based testing (rapid): history replay oracle over event logs, harness-gated schedules, race detector as instrumented oracle",
+        "race": True,
+        "tests": [{"name": "TestC14", "quick": 2400, "thorough": 120000}],
+    },
 }
